@@ -6,6 +6,7 @@ CONSTANTS
   StoreMode = "nostore"
   HitMode = "identity"
   Random = FALSE
+  FbMode = "faithful"
 INIT Init
 NEXT Next
 INVARIANT NoComputedTwice
